@@ -93,7 +93,7 @@ class CiderGrids(Grids):
             rad_tab,
             dr_tab,
         ) = gen_atomic_grids_cider(
-            mol, atom_grid, self.radi_method, level, prune, **kwargs
+            mol, atom_grid, radi_method, level, prune, full_lmax=self.lmax, **kwargs
         )
         if build_indexer:
             self.grids_indexer = AtomicGridsIndexer.from_tabs(
